@@ -165,3 +165,19 @@ VARIANTS += [
       "        vars_cached.extend(vars_in)  # old inputs ready for reuse\n",
       "", "silent", "", "only more fresh variables are used"),
 ]
+
+VARIANTS += [
+    V("ann-cache-key-without-control-dims", AN,
+      "    description = \"_\".join(map(str, ([state_dims, control_dims, "
+      "*layers])))",
+      "    description = \"_\".join(map(str, ([state_dims, *layers])))",
+      "fire", "D16.9", "seed C16-ann-cache-key-without-control-dims"),
+    V("ann-cache-store-under-other-key", AN,
+      "    setattr(make_ann, description, result)  # cache the controller",
+      "    setattr(make_ann, f\"{description}_\", result)", "fire", "D16.9"),
+    V("silent-ann-cache-key-fstring", AN,
+      "    description = \"_\".join(map(str, ([state_dims, control_dims, "
+      "*layers])))\n    description = f\"__cache_{description}\"",
+      "    description = (f\"__cache_{state_dims}_{control_dims}_\"\n"
+      "                   + \"_\".join(map(str, layers)))", "silent"),
+]
